@@ -246,6 +246,16 @@ func (sc *Scope) lookup1(name string) (Val, bool) {
 				return sc.deref(fr.env[f]), true
 			}
 		}
+		// a variable kept in a cell without debug bindings (named results of a function with deferred calls)
+		if len(fr.fn.Blocks) > 0 {
+			for _, in := range fr.fn.Blocks[0].Instrs {
+				if a, ok := in.(*ssa.Alloc); ok && a.Comment == name {
+					if _, ok := fr.env[a]; ok {
+						return c.load(fr, sc.state(), fr.eval(a), 0), true
+					}
+				}
+			}
+		}
 	}
 	// package-level constant
 	if p := c.eng.TPkgs[sc.pkg]; p != nil {
@@ -801,6 +811,14 @@ func (c *VCtx) translateCall(sc *Scope, x *ECall) Val {
 		return c.resErr(arg(0))
 	case "resval":
 		return c.resVal(arg(0), SAny)
+	case "visited":
+		// visited(key): the map range loop most recently entered by this function has already produced key
+		if sc.fr == nil || sc.fr.lastIter == nil {
+			unsup("visited() outside a range-over-map loop")
+		}
+		kv := arg(0)
+		h := c.heap(st, "G:visited:"+string(kv.Sort), ArrSort(SRef, ArrSort(kv.Sort, SBool)))
+		return Select(Select(h, sc.fr.lastIter), kv)
 	case "cellany":
 		h := c.heap(st, cellHeapName(SAny), ArrSort(SRef, SAny))
 		return Select(h, arg(0))
